@@ -216,3 +216,76 @@ func HarnessC10MultiFile() {
 		verifCheckf(verifC10Digest(errs, paths[k]) == single[k], "file-linted-together-differs-from-file-linted-alone", paths[k])
 	}
 }
+
+// HarnessC10MatrixAlias: matrices built from expressions whose types are
+// shared objects (built-in context types, the workflow's inputs type): typing
+// the matrix — merging include elements, dropping "include" / "exclude" from a
+// matrix given as one expression — must not write to those objects. All
+// package-level tables are write-monitored; afterwards a second job of the same
+// workflow still sees `inputs.include`.
+func HarnessC10MatrixAlias() {
+	s := yScalar
+	exprs := []string{"github.event", "github", "vars", "inputs", "needs", "github.event.pull_request", "fromJSON(github.sha)"}
+	E := "${{ " + exprs[verifChoose("expr", len(exprs))] + " }}"
+	var matrix *yaml.Node
+	switch verifChoose("shape", 6) {
+	case 0:
+		matrix = yMap(s("include"), ySeq(s(E), yMap(s("foo"), s("1"))))
+	case 1:
+		matrix = yMap(s("include"), ySeq(yMap(s("foo"), s("1")), s(E), yMap(s("bar"), s("2"))))
+	case 2:
+		matrix = s(E)
+	case 3:
+		matrix = yMap(s("r"), ySeq(s("1")), s("include"), s(E))
+	case 4:
+		matrix = yMap(s("r"), s(E), s("include"), ySeq(yMap(s("foo"), s("1"))))
+	default:
+		matrix = yMap(s("include"), ySeq(s(E), s(E), yMap(s("foo"), s("1"))))
+	}
+	// with workflow_dispatch inputs the checker works on its own copy of the github type; with push it does not
+	var on *yaml.Node = s("push")
+	cExprs := "echo ${{ github.event.foo.bar }}"
+	if verifChoose("trigger", 2) == 1 {
+		on = yMap(s("workflow_dispatch"), yMap(s("inputs"), yMap(s("include"), yMap(s("type"), s("string")), s("exclude"), yMap(s("type"), s("string")))))
+		cExprs = "echo ${{ inputs.include }} ${{ inputs.exclude }} ${{ github.event.foo.bar }}"
+	}
+	reps := 1
+	if verifIsNative() {
+		reps = 40 // Go's own random job order
+	}
+	for rep := 0; rep < reps; rep++ {
+		doc := yDoc(yMap(
+			s("on"), on,
+			s("jobs"), yMap(
+				s("a"), yMap(s("runs-on"), s("ubuntu-latest"), s("steps"), ySeq(yMap(s("run"), s("echo")))),
+				s("b"), yMap(s("needs"), ySeq(s("a")), s("runs-on"), s("ubuntu-latest"), s("strategy"), yMap(s("matrix"), matrix),
+					s("steps"), ySeq(yMap(s("run"), s("echo ${{ matrix.foo }}")))),
+				s("c"), yMap(s("needs"), ySeq(s("b")), s("runs-on"), s("ubuntu-latest"),
+					s("steps"), ySeq(yMap(s("run"), s(cExprs)))),
+			)))
+		verifPlace(doc, 1, 0)
+		verifMonitorGlobals(true)
+		verifMapOrder(true, "visitJobs", "Visit")
+		errs := verifLintNode(doc, verifRulesNoDeprecated())
+		verifMapOrder(false)
+		verifMonitorGlobals(false)
+		verifReach("linted")
+		for _, e := range errs {
+			// job c uses only defined names: whatever job b's matrix was, it stays clean
+			verifCheckf(verifNot(verifIsLine(e, doc, "c")), "matrix-typing-changed-a-shared-type", e.Message)
+		}
+	}
+}
+
+// verifIsLine: the diagnostic sits in the steps of the job with this id.
+func verifIsLine(e *Error, doc *yaml.Node, job string) bool {
+	jobs := doc.Content[0].Content[3]
+	for k := 0; k+1 < len(jobs.Content); k += 2 {
+		if jobs.Content[k].Value == job {
+			v := jobs.Content[k+1]
+			last := v.Content[len(v.Content)-1]
+			return e.Line >= last.Line
+		}
+	}
+	return false
+}
